@@ -51,3 +51,15 @@ q, t = tiers(250, 60, 20000, 1200)
 plan("C01", "exploration", HIST_RULE.format(kind="attestation", unit="target", extra="single and batched, batches repeating a key", strict=" (double vote, surround either way)"), q, t)
 q, t = tiers(250, 60, 20000, 1200)
 plan("C02", "exploration", HIST_RULE.format(kind="proposal", unit="slot", extra="proposer and foreign domains", strict=" (same slot/different block; in sequential histories slots must strictly increase in release order)"), q, t)
+
+q, t = tiers(120, 60, 6000, 1200)
+q["require_probes"] = ["crash_exact", "probe_crash_between_approval_and_signing", "sign_seam_checks", "ack_durability_checks"]
+t["require_probes"] = q["require_probes"] + ["crash_torn", "crash_after-write", "probe_crash_before_store", "probe_crash_between_store_and_approval", "sign_seam_image_checks"]
+plan("C03", "exploration",
+     "one case = one seeded run: 1-4 phases of 1-5 concurrent conflict-seeking attestation/proposal requests (single and batched) under the seeded scheduler, "
+     "with 1-3 crashes injected at drawn yield points (before a store write, torn inside it, right after it, between approval and Sign, waiting for a lock) "
+     "and restart on the surviving directory image, plus clean restarts; distinct = distinct (history, schedule, crash placement) signature; non-trivial = "
+     "at least one crash happened or one signature was released. Oracles: ledger across incarnations (no conflicting pair ever released), export after every "
+     "restart covers every released signature, at the instant Sign is invoked the live store and (sampled) a fresh process opening the directory already "
+     "cover the duty, the directory as copied at the instant a storage call returns already holds what was acknowledged, SyncWrites is on.",
+     q, t)
